@@ -445,13 +445,15 @@ class QsSim:
             self.stopping = False
         self.sleepers = []
 
-    def restart(self):
+    def restart(self, downtime=0.0):
         """Stop and start the server process: Main.run's own `finally: savedb()` writes the
-        pickle, the process exits (all client greenlets vanish with it), a new Main loads it."""
+        pickle, the process exits (all client greenlets vanish with it), `downtime` seconds
+        pass with no server at all, then a new Main loads the pickle."""
         gevent.idle()
         live = [n for n in self.conns if self.is_live(n)]
         self._stop_server()
         self._kill_all()
+        self.clock.mono += max(0.0, float(downtime))
         self.conns = {}
         self.socks = {}
         self.epoch += 1
